@@ -51,7 +51,7 @@ def run(ctx):
         if not r.fc_start["compact"]:
             raise RuntimeError(f"generator produced a start file that is not compact: {r.desc}")
         C.correspondence(ctx, r)
-        judge(ctx, r)
+        C.judge_and_shrink(ctx, r, judge)
 
 
 def replay(path):
